@@ -114,7 +114,7 @@ var (
 	updReply = make(chan string)
 	// generous: on the unchanged tree Update returns within microseconds, the bound is only ever
 	// waited out when the API is wedged
-	updBound = 5 * time.Second
+	updBound = 10 * time.Second
 	wedges   = 0
 )
 
